@@ -1147,7 +1147,7 @@ def _set_common_charges_charge_to_JW_parity(sites, new_charges, new_mod):
                 # got it: this new charge is just the total number of fermions
                 charge_to_JW_parity = [0] * len(new_charges)
                 charge_to_JW_parity[new_i] = 1
-                return charge_to_JW_parity
+                return np.array(charge_to_JW_parity, int)
             if new_charge_set <= need:
                 new_charge_sets.append(new_charge_set)
                 new_is.append(new_i)
